@@ -62,7 +62,9 @@ def _menu():
     for lst in (['fnna', 'ffill_na'], ['fnna', 'ffill_0'], ['nona', 'ffill'], ['fnna', 'bfill'], ['ffill', 'ffill_na'], ['bfill', 'ffill_0'],
                 ['ffill_na', 'bfill'], ['ffill_0', 'fnna'], ['ffill', 'nona'], ['ffill_na', 'nona'],
                 # a row-dropping step BEFORE fnna: the rows left no longer carry the labels 0..n-1 (arrays / default integer labels)
-                ['nona', 'fnna'], ['fnna', 'fnna'], ['fnna', 'nona'], ['nona', 'ffill_0']):
+                ['nona', 'fnna'], ['fnna', 'fnna'], ['fnna', 'nona'], ['nona', 'ffill_0'],
+                # two tail-aware methods in one list (on frames: every column has its own last observation, in every step)
+                ['ffill_na', 'ffill_0'], ['ffill_na', 'ffill_na'], ['ffill_0', 'ffill_na']):
         m.append(('+'.join(lst), lst, [None, 1]))
     m.append(('ffill_na', 'ffill_na', LIMITS))
     m.append(('ffill_0', 'ffill_0', LIMITS))
@@ -405,6 +407,9 @@ def check(case):
             if isinstance(method, list):
                 owned.append((name, limit, mobj, list(method)))
     calls.append(('nona()', ['nona'], None, lambda x: nona(x), 'nona(x)'))
+    # the missing value named explicitly, as NaN objects that are not the np.nan singleton
+    calls.append(('nona(float nan)', ['nona'], None, lambda x: nona(x, float('nan')), "nona(x, float('nan'))"))
+    calls.append(('nona(np.float64 nan)', ['nona'], None, lambda x: nona(x, np.float64('nan')), "nona(x, np.float64('nan'))"))
 
     for pk, ak in pairs:
         P = Input(pk, cols, n)
